@@ -60,6 +60,19 @@ Proof. intros. unfold m_lines_after, gen_lines_after. lia. Qed.
 Lemma b_reported_line : forall l0 lines : nat, Z.of_nat (m_reported l0 lines) = gen_reported_line (Z.of_nat l0) (Z.of_nat lines).
 Proof. intros. unfold m_reported, gen_reported_line. lia. Qed.
 
+(* parser.py __check_nothing_left (end of file, 03a5b64): the bytes that may follow the last complete entry are the
+   white space of the generated list plus the format's entry marker; the reported line is the line after the delivered
+   buffer (n_lines_read is advanced only afterwards), or the lines read so far when nothing became a buffer *)
+Lemma b_ignored_bytes : forall f c, ignorable f c = existsb (Z.eqb c) (gen_ignored_bytes ++ marker f).
+Proof.
+  intros f c. unfold ignorable, gen_ignored_bytes. cbn [List.app existsb].
+  destruct (c =? 32), (c =? 9), (c =? 13), (c =? 10); reflexivity.
+Qed.
+Lemma b_incomplete_line : forall l nl : nat, Z.of_nat (m_incomplete_line l nl) = gen_incomplete_line (Z.of_nat l) (Z.of_nat nl).
+Proof. intros. unfold m_incomplete_line, gen_incomplete_line. lia. Qed.
+Lemma b_pending_incomplete_line : forall l : nat, Z.of_nat (m_pending_incomplete_line l) = gen_pending_incomplete_line (Z.of_nat l).
+Proof. reflexivity. Qed.
+
 (* ---- one_line_buffer.py / fastq_buffer.py ---- *)
 Lemma b_oneline_incomplete : forall cnt n : nat, gen_oneline_incomplete (Z.of_nat cnt) (Z.of_nat n) = m_oneline_incomplete cnt n.
 Proof. intros. unfold gen_oneline_incomplete, m_oneline_incomplete. destruct (Nat.ltb_spec cnt n); [apply Z.ltb_lt|apply Z.ltb_ge]; lia. Qed.
